@@ -135,6 +135,11 @@ let next_catchup_honest = ref false
 let seen_max : (int * string, n) Hashtbl.t = Hashtbl.create 16
 let last_rb : (int * string, BZ.t) Hashtbl.t = Hashtbl.create 16
 let usable_strict : (int * string, unit) Hashtbl.t = Hashtbl.create 16
+(* C11, steady heartbeats: instants of the fresh observations since the member was last found not
+   alive (most recent first) *)
+let fresh_times : (int * string, BZ.t list) Hashtbl.t = Hashtbl.create 16
+(* C18: members for which a catch-up was accepted since the node's previous evaluation *)
+let caught_up : (int * string, unit) Hashtbl.t = Hashtbl.create 16
 let weak_acceptance_seen = ref false
 (* KF-1 attribution: copies (node index, member) that performed a weak acceptance, or applied a node
    delta computed from such a copy; node deltas computed from such copies *)
@@ -150,7 +155,7 @@ let n_checks = ref 0
 let reset_case () =
   Hashtbl.reset infos; Hashtbl.reset snaps; Hashtbl.reset ledgers; Hashtbl.reset owner_hb;
   Hashtbl.reset fresh;
-  next_catchup_honest := false; Hashtbl.reset usable; Hashtbl.reset seen_max; Hashtbl.reset last_rb; Hashtbl.reset usable_strict; now := BZ.zero; Hashtbl.reset tainted; Hashtbl.reset tainted_nds; Hashtbl.reset removed_by_eval;
+  next_catchup_honest := false; Hashtbl.reset fresh_times; Hashtbl.reset caught_up; Hashtbl.reset usable; Hashtbl.reset seen_max; Hashtbl.reset last_rb; Hashtbl.reset usable_strict; now := BZ.zero; Hashtbl.reset tainted; Hashtbl.reset tainted_nds; Hashtbl.reset removed_by_eval;
   weak_acceptance_seen := false; catchup_seen := false
 
 let flag (prop : string) (cls : string option) (what : string) =
@@ -458,6 +463,7 @@ let on_proc (idx : int) (msg : message) (obs : string) : unit =
                        let cnt, last = match Hashtbl.find_opt fresh k with Some x -> x | None -> (0, BZ.zero) in
                        if cnt >= 1 && BZ.compare (BZ.sub !now last) (z_of_cz info.fdc.max_interval) <= 0 then
                          Hashtbl.replace usable k ();
+                       Hashtbl.replace fresh_times k (!now :: (match Hashtbl.find_opt fresh_times k with Some l -> l | None -> []));
                        Hashtbl.replace fresh k (cnt + 1, !now)
                    | _ -> ())
                dg
@@ -545,6 +551,31 @@ let on_eval (idx : int) (obs : string) : unit =
                      ("member " ^ token_of_id i ^ " silent for longer than phi_threshold*max(max_interval,initial_interval) but not reported dead");
                  check "C10" (not is_live || Hashtbl.mem usable k)
                    ("member " ^ token_of_id i ^ " reported live although its sampling window has received no usable interval (two fresh heartbeats at most max_interval apart) since the evaluation that last found it not alive");
+                 (* C11, third sentence: fresh heartbeats since the member was last found not alive, all
+                    gaps (the one up to now included) within [a, b], b <= max_interval, a > 0 and
+                    phi_threshold >= b / min(a, initial_interval): the member must be reported live *)
+                 (match Hashtbl.find_opt fresh_times k with
+                  | Some (t0 :: (_ :: _ as rest)) ->
+                      let gaps = ref [BZ.sub !now t0] in
+                      let prev = ref t0 in
+                      List.iter (fun t -> gaps := BZ.sub !prev t :: !gaps; prev := t) rest;
+                      let inner = List.tl (List.rev !gaps) in      (* gaps between observations *)
+                      let b = List.fold_left (fun m g -> if BZ.compare g m > 0 then g else m) BZ.zero !gaps in
+                      let a = List.fold_left (fun m g -> if BZ.compare g m < 0 then g else m) (List.hd inner) inner in
+                      let a' = if BZ.compare a (z_of_cz fdc.initial_interval) < 0 then a else z_of_cz fdc.initial_interval in
+                      if BZ.compare a' BZ.zero > 0 && BZ.compare b (z_of_cz fdc.max_interval) <= 0
+                         (* with a relative margin of 2^-20: the implementation evaluates phi in f64 *)
+                         && BZ.compare (BZ.mul (BZ.mul b (z_of_cz fdc.phi_den)) (BZ.of_int 1048577))
+                                       (BZ.mul (BZ.mul (z_of_cz fdc.phi_num) a') (BZ.of_int 1048576)) < 0
+                         && not removed then
+                        check "C11" is_live
+                          ("member " ^ token_of_id i ^ " has sent fresh heartbeats at steady intervals within the bound phi_threshold >= b / min(a, initial_interval) since it was last found not alive, but is not reported live")
+                  | _ -> ());
+                 if Hashtbl.mem caught_up k then
+                   check "C18" (not is_live || Hashtbl.mem usable k || in_ids i b.live)
+                     ("member " ^ token_of_id i ^ " became live at the evaluation following a catch-up although no usable pair of fresh heartbeats was observed: the catch-up made it live by itself");
+                 Hashtbl.remove caught_up k;
+                 if not is_live then Hashtbl.remove fresh_times k;
                  check "C11" (not is_live || Hashtbl.mem usable_strict k)
                    ("member " ^ token_of_id i ^ " reported live although, since it was last found not alive, no two heartbeats strictly higher than every heartbeat observed before arrived at most max_interval apart (replayed or lower heartbeats counted as evidence)");
                  if not is_live then (Hashtbl.remove usable k; Hashtbl.remove usable_strict k);
@@ -637,6 +668,9 @@ let on_catchup ?member ?supplied (idx : int) (obs : string) : unit =
                   ("a catch-up lowered the (watermark, max version) of " ^ token_of_id m)
             | _ -> ())
        | _ -> ());
+      (match member with
+       | Some m -> Hashtbl.replace caught_up (idx, token_of_id m) ()
+       | None -> ());
       Hashtbl.replace snaps idx o.snap
   | None -> ()
 
